@@ -24,7 +24,7 @@ def expected_state(dev, r, kind):
     if kind == "state1":
         return {
             "state": ("enum2", i_eq(r["state"], 1), dev.DeviceState.ON, dev.DeviceState.OFF),
-            "time_left": iso_units(r["left_s"]), "time_on": iso_units(r["on_s"]), "auto_shutdown": iso_units(r["auto_s"]),
+            "time_left": ("iso", r["left_s"]), "time_on": ("iso", r["on_s"]), "auto_shutdown": ("iso", r["auto_s"]),
             "power_consumption": r["watts"], "electric_current": ("amps", r["watts"]),
         }
     if kind == "shutter":
